@@ -212,16 +212,22 @@ theorem dltExtendedHeader_asBytes (eh : ExtendedHeader) (h : eh.wf = true) (r : 
     List.append_assoc, beU8, PRes.andThen_ok, zts_padded 4 app _ a2 a3 a1,
     zts_padded 4 ctx _ c2 c3 c1, ExtendedHeader.msin, m1, m2]
 
+/-- the extended header is 10 bytes as soon as both ids have at most 4 bytes -/
+theorem ExtendedHeader.length_asBytes_of_le (eh : ExtendedHeader)
+    (a1 : eh.applicationId.length ≤ 4) (c1 : eh.contextId.length ≤ 4) :
+    eh.asBytes.length = 10 := by
+  simp only [ExtendedHeader.asBytes, List.length_append, List.length_cons, List.length_nil,
+    length_putZeroTerminatedString _ 4 a1, length_putZeroTerminatedString _ 4 c1]
+
 theorem ExtendedHeader.length_asBytes (eh : ExtendedHeader) (h : eh.wf = true) :
     eh.asBytes.length = 10 := by
   obtain ⟨ha, hc, _⟩ := (ExtendedHeader.wf_iff eh).1 h
   obtain ⟨a1, _, _⟩ := (idOk_iff _).1 ha
   obtain ⟨c1, _, _⟩ := (idOk_iff _).1 hc
-  simp only [ExtendedHeader.asBytes, List.length_append, List.length_cons, List.length_nil,
-    length_putZeroTerminatedString _ 4 a1, length_putZeroTerminatedString _ 4 c1]
+  exact ExtendedHeader.length_asBytes_of_le eh a1 c1
 
-theorem StandardHeader.length_asBytes (h : StandardHeader)
-    (hid : ∀ id, h.ecuId = some id → idOk id = true) :
+theorem StandardHeader.length_asBytes_of_le (h : StandardHeader)
+    (hid : ∀ id, h.ecuId = some id → id.length ≤ 4) :
     h.asBytes.length = 4 + (if h.ecuId.isSome then 4 else 0) + (if h.sessionId.isSome then 4 else 0)
       + (if h.timestamp.isSome then 4 else 0) := by
   rcases h with ⟨version, e, ext, mc, ecuId, sessionId, timestamp, pl⟩
@@ -233,10 +239,16 @@ theorem StandardHeader.length_asBytes (h : StandardHeader)
       simp only [StandardHeader.asBytes, List.length_append, List.length_cons, List.length_nil, hb, hb4,
         Option.isSome, if_true, Bool.false_eq_true, if_false]
   | some id =>
-    obtain ⟨h1, _, _⟩ := (idOk_iff _).1 (hid id rfl)
+    have h1 := hid id rfl
     cases sessionId <;> cases timestamp <;>
       simp only [StandardHeader.asBytes, List.length_append, List.length_cons, List.length_nil, hb, hb4,
         Option.isSome, if_true, Bool.false_eq_true, if_false, length_putZeroTerminatedString _ 4 h1]
+
+theorem StandardHeader.length_asBytes (h : StandardHeader)
+    (hid : ∀ id, h.ecuId = some id → idOk id = true) :
+    h.asBytes.length = 4 + (if h.ecuId.isSome then 4 else 0) + (if h.sessionId.isSome then 4 else 0)
+      + (if h.timestamp.isSome then 4 else 0) :=
+  StandardHeader.length_asBytes_of_le h fun id hi => ((idOk_iff _).1 (hid id hi)).1
 
 /-! ### payload -/
 
